@@ -455,6 +455,12 @@ class ProgramOptionsSave(Contract):
                     have = min(local) if local else inherited
                     ex.obls.append(Obligation(f'ProgramOptions::save#text.{T.replace("std::", "").replace("<", "_").replace(">", "")}_values_round_trip', {'C13'}, [], z3.BoolVal(have >= NEED[T]), 'postcondition', line_of(n),
                                               f'values of type {T} are written with {have} significant digits; {NEED[T]} (max_digits10) are needed for the text to reproduce the value exactly'))
+        # ---- values are written as they are: no stream manipulator or wrapper that changes the TEXT of a value in a way the
+        # config-file reader does not undo (std::quoted: the reader keeps the quotes as part of a string; hex/oct/fixed/hexfloat: numbers)
+        TEXT_CHANGERS = {'quoted', 'hex', 'oct', 'fixed', 'hexfloat', 'setbase', 'setw', 'setfill', 'put_money', 'put_time'}
+        changers = sorted(set((x.get('referencedDecl') or {}).get('name') for x in _walk(save) if x.get('kind') == 'DeclRefExpr' and (x.get('referencedDecl') or {}).get('name') in TEXT_CHANGERS))
+        ex.obls.append(Obligation('ProgramOptions::save#text.values_are_written_verbatim', {'C13'}, [], z3.BoolVal(not changers), 'postcondition', line_of(save),
+                                  f'stream manipulators / wrappers in save() that change how a value reads when parsed back: {changers}'))
         # ---- alpha0: written as 0 only when the synchrotron frequency is the one in use (f_s != 0)
         if alpha_if is None:
             raise ExtractionError('ProgramOptions::save: alpha0 special case not found')
